@@ -51,12 +51,22 @@ func newSchemaCase(t *core.SType) (*schemaCase, error) {
 	if err != nil {
 		return nil, err
 	}
-	eng := core.NewBindEngine(ts)
+	// the reflection binding with inferred Go types, or with caller-supplied ones (the choice and the Go types are
+	// functions of the type's token form, so a case line determines them)
+	var eng core.TypedEngine = core.NewBindEngine(ts)
+	toks := t.Tokens()
+	h := uint32(2166136261)
+	for _, c := range []byte(toks) {
+		h = (h ^ uint32(c)) * 16777619
+	}
+	if (h>>7)%2 == 1 {
+		eng = core.NewUserBindEngine(ts, toks)
+	}
 	// bind now: a schema the engine cannot bind is an infrastructure problem of the generator, not a case
 	if _, err := eng.NewTypeBuilder(t.Name); err != nil {
 		return nil, err
 	}
-	return &schemaCase{T: t, Ty: t.Tokens(), Eng: eng}, nil
+	return &schemaCase{T: t, Ty: toks, Eng: eng}, nil
 }
 
 func genSchemaCase(r *core.Rand, cfg core.SchemaCfg) (*schemaCase, error) {
